@@ -14,6 +14,28 @@ FIND_INDEX = {
 }
 
 BLOCKS = {
+    "_p1_numbering": {
+        # the straight-line part of _compute_p1_dof_map between its loops that turns the marked vertices into dof numbers: dofs[v] == -1 off the marked vertices and
+        # an increasing bijection of the marked vertices onto 0 .. global_dof_count - 1 (this is the `requires` of _p1_final_block about `dofs`)
+        "function": ("bempp_cl.api.space.scalar_spaces", "_compute_p1_dof_map"),
+        "slice_targets": ["dofs", "used_dofs", "global_dof_count"],
+        "loop": None,
+        "params": ["vertex_is_dof", "number_of_vertices"],
+        "returns": ["dofs", "global_dof_count"],
+        "contract": {
+            "opaque_ok": True,
+            "args": {"vertex_is_dof": ("arr1",), "number_of_vertices": ("int",)},
+            "requires": ["len(vertex_is_dof) == number_of_vertices"],
+            "result": ("tuple", 2),
+            "ensures": [
+                "len(result_0) == number_of_vertices and result_1 >= 0",
+                "forall(0, number_of_vertices, lambda v: (result_0[v] != -1) == (vertex_is_dof[v] != 0))",
+                "forall(0, number_of_vertices, lambda v: vertex_is_dof[v] == 0 or (0 <= result_0[v] and result_0[v] < result_1))",
+                "forall(0, number_of_vertices, lambda v: forall(0, v, lambda u: vertex_is_dof[v] == 0 or vertex_is_dof[u] == 0 or result_0[u] < result_0[v]))",
+                "forall(0, result_1, lambda d: exists(0, number_of_vertices, lambda v: vertex_is_dof[v] != 0 and result_0[v] == d))",
+            ],
+        },
+    },
     "_p1_final_block": {
         "function": ("bempp_cl.api.space.scalar_spaces", "_compute_p1_dof_map"),
         "loop": ("elements_in_support", 1),
